@@ -822,6 +822,11 @@ VSattach(HFILEID     f,    /* IN: file handle */
         acc_mode = 'w';
     else
         HGOTO_ERROR(DFE_BADACC, FAIL);
+    if (acc_mode == 'w') {
+        filerec_t *file_rec = HAatom_object(f);
+        if (BADFREC(file_rec) || !(file_rec->access & DFACC_WRITE))
+            HGOTO_ERROR(DFE_BADACC, FAIL);
+    }
 
     /*      */
     if (vsid == -1) { /* ---------- VSID IS -1 -----------------------
@@ -1126,8 +1131,11 @@ VSappendable(int32 vkey, /* IN: vdata key */
     if ((vs == NULL) || (vs->otag != VSDESCTAG))
         HGOTO_ERROR(DFE_ARGS, FAIL);
 
-    if (vs->aid == 0)
+    if (vs->aid == 0) {
         vs->aid = Hstartaccess(vs->f, VSDATATAG, vs->oref, DFACC_RDWR | DFACC_APPENDABLE);
+        if (vs->aid == FAIL)
+            ret_value = FAIL;
+    }
     else
         ret_value = Happendable(vs->aid);
 
@@ -1402,6 +1410,11 @@ VSdelete(int32 f, /* IN: file handle */
     /* get vdata file record */
     if (NULL == (vf = Get_vfile(f)))
         HGOTO_ERROR(DFE_FNF, FAIL);
+    {
+        filerec_t *file_rec = HAatom_object(f);
+        if (BADFREC(file_rec) || !(file_rec->access & DFACC_WRITE))
+            HGOTO_ERROR(DFE_BADACC, FAIL);
+    }
 
     /* find vdata in TBBT using it's ref */
     key = vsid;
